@@ -1412,7 +1412,7 @@ func (f *Frame) callEffects(c *ssa.CallCommon, li *loopInfo, depth int, argMap m
 				}
 				found := false
 				for i, n := range names {
-					if (n == inner || fmt.Sprintf("arg%d", i) == inner) && i < len(actuals) {
+					if (n == inner || fmt.Sprintf("arg%d", i) == inner || (len(ct.Params) == len(names) && ct.Params[i] == inner)) && i < len(actuals) {
 						found = true
 						a := resolve(actuals[i])
 						switch {
